@@ -217,7 +217,7 @@ func TestC04Sys(t *testing.T) {
 			idx += 5
 			continue
 		}
-		em.Marker("begin", idx)
+		stBegin(em, idx)
 		first := idx
 		var incoming metadata.MD
 		var accH, accT []metadata.MD
@@ -469,6 +469,6 @@ func TestC04Sys(t *testing.T) {
 			}
 		}
 		idx += 2
-		em.Marker("end", first)
+		stEnd(em, first)
 	}
 }
